@@ -115,3 +115,10 @@ Definition same_shape (k0 k : vkey) : Prop :=
 End VTK.
 Arguments hstack {K} _. Arguments splits_of {K} _. Arguments dict2arrays {K W} _. Arguments arrays2dict {K W} _.
 Arguments hsplit {K} _ _. Arguments same_shape {K} _ _.
+
+(* ---- YAML of a Cluster: Cluster._asdict writes 'clustersitelist' always and each constructor flag iff it is set; the
+   constructor reads absent flags as False.  Keys are coded 0 = clustersitelist, 1 = transition, 2 = vacancy. *)
+Definition cluster_asdict_keys (transition vacancy : bool) : list nat :=
+  0 :: (if transition then [1] else []) ++ (if vacancy then [2] else []).
+Definition cluster_flags_of_keys (ks : list nat) : bool * bool :=
+  (existsb (Nat.eqb 1) ks, existsb (Nat.eqb 2) ks).
